@@ -121,7 +121,7 @@ class C08(Check):
         if tier == "quick":
             for w in ("create_fresh", "create_overwrite", "create_buffered", "trees_fresh", "trees_other_edges",
                       "trees_forced_other_edges", "measure_over_cached", "corrfunc_file_fresh", "corrdata_files_dotted_over_old",
-                      "config_file_over_old", "corrdata_files_over_partial:011", "create_many_patches"):
+                      "config_file_over_old", "corrdata_files_over_partial:011", "corrdata_files_over_partial:110", "create_many_patches"):
                 for s in range(4):
                     yield dict(workload=w, shard=s, of=4, stride=1, seed=seed)
             for s in range(2):
